@@ -607,6 +607,7 @@ class KH(Hooks):
     def __init__(self):
         self.X = SpaceV('A', 'C')
         self.reg = {}
+        self.calls = []
 
     def kern(self, I, name):
         if name not in self.reg:
@@ -616,6 +617,37 @@ class KH(Hooks):
     def apply(self, I, name, x, scale=1):
         v = self.kern(I, name).term.apply(x.val)
         return Vec(vs.scale(v, to_rat(scale)), self.X)
+
+    real_input = False
+
+    def conj_lf(self, I, lf):
+        """Complex conjugate of a linear form over the kernels: the
+        unnormalised transforms of the two directions are conjugates of each
+        other (conj F(v) = B(conj v)), the phase factors of the two signs
+        are, a real input is its own conjugate."""
+        def cname(nm):
+            if nm in ('FWD', 'BWD'):
+                return 'BWD' if nm == 'FWD' else 'FWD'
+            if nm.endswith('[-]'):
+                return nm[:-3] + '[+]'
+            if nm.endswith('[+]'):
+                return nm[:-3] + '[-]'
+            return nm
+
+        def ck(k):
+            if k[0] == 'app' and isinstance(k[1], tuple) and \
+                    k[1][0] == 'op':
+                nm = cname(k[1][1])
+                self.kern(I, nm)
+                return ('app', ('op', nm), ck(k[2]))
+            if k[0] == 'sym' and self.real_input and k[1] == 'x':
+                return k
+            return vs.conj_atom(k)
+        out = {}
+        for k, v in lf.items():
+            kk = ck(k)
+            out[kk] = out.get(kk, vs.ZERO) + vs.conj_scalar(v, {'N'})
+        return {k: v for k, v in out.items() if not v.is_zero()}
 
     def on_getattr(self, interp, obj, name):
         I = interp
@@ -631,6 +663,14 @@ class KH(Hooks):
                 k, sc = table[name]
                 return Builtin('np.fft.' + name, lambda x, **kw:
                                self.apply(I, k, x, sc))
+        if obj is NPV and name in ('conj', 'conjugate'):
+            def kconj(v, out=None, **k):
+                r = Vec(self.conj_lf(I, v.val), self.X)
+                if isinstance(out, Vec):
+                    out.val = r.val
+                    return out
+                return r
+            return Builtin('np.conj', kconj)
         if obj is NPV and name == 'prod':
             return Builtin('np.prod', lambda *a, **k: Rat.var('N'))
         if obj is NPV and name == 'take':
@@ -656,6 +696,12 @@ class KH(Hooks):
             if f.name == 'pyfftw_call':
                 x, out = args[0], args[1]
                 d = kwargs.get('direction', 'forward')
+                self.calls.append({
+                    'direction': d,
+                    'halfcomplex': bool(kwargs.get('halfcomplex', False)),
+                    'axes': tuple(kwargs['axes']) if isinstance(
+                        kwargs.get('axes'), (tuple, list)) else
+                    kwargs.get('axes')})
                 norm = kwargs.get('normalise_idft', False)
                 sc = Rat.const(1) / Rat.var('N') if (
                     d == 'backward' and norm) else 1
@@ -667,6 +713,13 @@ class KH(Hooks):
                 op = kwargs.get('op', '')
                 nm = ('PRE' if f.name == 'dft_preprocess_data' else
                       'POST_' + op) + '[%s]' % kwargs.get('sign')
+                sh = kwargs.get('shift')
+                if nm.startswith('PRE') and sh is not None and all(
+                        bool(z) for z in (sh if isinstance(
+                            sh, (tuple, list)) else [sh])):
+                    # shifted axes: the factors (-1)^j are real and the
+                    # same for both signs
+                    nm = 'PRE'
                 r = self.apply(I, nm, x)
                 out = kwargs.get('out')
                 if isinstance(out, Vec):
@@ -722,16 +775,21 @@ def _normalisation(rep, model):
                 continue        # real-to-halfcomplex is forward only
             if not _admissible(model, cname, sign, hc):
                 continue
-            for field in ('C', 'R'):
+            for field, shifted in itertools.product(('C', 'R'),
+                                                    (True, False)):
                 if hc and field == 'C':
                     continue
-                tag = '%s[sign=%s,halfcomplex=%s,real side=%s]' % (
-                    cname, sign, hc, field)
+                if not shifted and not cname.startswith('Fourier'):
+                    continue        # the discrete transforms have no shift
+                tag = '%s[sign=%s,halfcomplex=%s,real side=%s%s]' % (
+                    cname, sign, hc, field, '' if shifted else
+                    ',unshifted')
                 res = {}
                 try:
                     for arm in ('_call_numpy', '_call_pyfftw'):
                         dc, fn = model.lookup(ci, arm)
                         h = KH()
+                        h.real_input = field == 'R' and not inverse
 
                         def once(assume):
                             I = Interp(model, assume, h)
@@ -747,7 +805,7 @@ def _normalisation(rep, model):
                                 'sign': sign, 'halfcomplex': hc,
                                 'axes': (0,), 'impl': 'x',
                                 '_fftw_plan': None, '_tmp_r': None,
-                                '_tmp_f': None, 'shifts': (True,),
+                                '_tmp_f': None, 'shifts': (shifted,),
                                 'domain': cs if inverse else rs,
                                 'range': rs if inverse else cs})
                             x = Vec(vs.sym('x'), h.X)
@@ -763,7 +821,16 @@ def _normalisation(rep, model):
                             raise Undecided('%d paths in %s' % (len(leaves),
                                                                 arm))
                         res[arm] = leaves[0][1]
+                        if arm == '_call_pyfftw':
+                            res['calls'] = list(h.calls)
                     n += 1
+                    # R3p: a plan prepared ahead of time (init_fftw_plan) is
+                    # executed by every later call whatever arguments that
+                    # call passes: it must be planned with the arguments
+                    # the call itself would use
+                    if shifted:
+                        _plan_agreement(rep, model, ci, cname, tag, sign, hc,
+                                        field, inverse, res['calls'])
                     if res['_call_numpy'][0] != res['_call_pyfftw'][0]:
                         rep.violation(
                             'R3', cname, '%s: the NumPy arm computes %s, the '
@@ -801,6 +868,66 @@ def _normalisation(rep, model):
                                                                   e.name),
                                   FOUR, ci.node.lineno)
     rep.floor('R3', 'transform class configurations', n, 12)
+
+
+def _plan_agreement(rep, model, ci, cname, tag, sign, hc, field, inverse,
+                    call_args):
+    from ..symex import FieldV
+    dc, fn = model.lookup(ci, 'init_fftw_plan')
+    if fn is None:
+        raise AnalysisError('anchor vanished: %s.init_fftw_plan' % cname)
+    h = KH()
+
+    def space(fld, name):
+        def element(*a, **k):
+            return Rec('elem', asarray=Builtin('asarray', lambda: Vec(
+                vs.sym('scratch_' + name), h.X)))
+        return Rec('space', shape=(Rat.var('N'),), field=FieldV(fld),
+                   grid=Opaque(name), element=Builtin('element', element))
+
+    def once(assume):
+        del h.calls[:]
+        I = Interp(model, assume, h)
+        inst = Inst(ci)
+        rs, cs = space(field, 'rgrid'), space('C', 'fgrid')
+        inst.attrs.update({
+            'sign': sign, 'halfcomplex': hc, 'axes': (0,),
+            'impl': 'pyfftw', '_fftw_plan': None, '_tmp_r': None,
+            '_tmp_f': None, 'shifts': (True,),
+            'domain': cs if inverse else rs,
+            'range': rs if inverse else cs})
+        I.call_func(Func(fn, I.env_of(dc.rel), dc), [], {}, inst)
+        return list(h.calls)
+    cons = tag + ':init_fftw_plan'
+    try:
+        leaves = explore(once, limit=10)
+    except Undecided as e:
+        rep.undecided('R3p', cons, str(e), FOUR, fn.lineno)
+        return
+    except PyRaise as e:
+        rep.violation('R3p', cname + '.init_fftw_plan', '%s: raises %s' % (
+            tag, e.name), FOUR, fn.lineno)
+        return
+    if len(leaves) != 1 or len(leaves[0][1]) != 1 or len(call_args) < 1:
+        rep.undecided('R3p', cons, 'no single planning call', FOUR,
+                      fn.lineno)
+        return
+    plan, call = leaves[0][1][0], call_args[-1]
+    diff = [k for k in ('direction', 'halfcomplex', 'axes')
+            if plan[k] != call[k]]
+    if diff:
+        rep.violation(
+            'R3p', cname + '.init_fftw_plan',
+            '%s: the plan is made with %s but the call executes the '
+            'transform with %s; a stored plan is run as it is' % (
+                tag, ', '.join('%s=%r' % (k, plan[k]) for k in diff),
+                ', '.join('%s=%r' % (k, call[k]) for k in diff)), FOUR,
+            fn.lineno)
+    else:
+        rep.holds('R3p', cons, 'planned with direction=%r, halfcomplex=%r, '
+                  'axes=%r like the call' % (plan['direction'],
+                                             plan['halfcomplex'],
+                                             plan['axes']))
 
 
 def _kernel_names(lf):
